@@ -43,18 +43,19 @@ func eqRanking(a combination.PowerRankings, b []combination.Combination) bool {
 // ---- scripts ---------------------------------------------------------------------
 
 type HCfg struct {
-	Ante    int64      `json:"ante"`
-	Dealer  int64      `json:"dealerBlind"`
-	SB      int64      `json:"sb"`
-	BB      int64      `json:"bb"`
-	Limit   string     `json:"limit"`
-	HoleN   int        `json:"holeN"`
-	ReqHole int        `json:"reqHole"`
-	Ranking string     `json:"ranking"`  // "standard" | "short"
-	DeckKind string    `json:"deckKind"` // "std" | "short" | "none"
-	Bank    []int64    `json:"bank"`
-	Pos     [][]string `json:"pos"`
-	Deck    []string   `json:"deck"` // deck forced right after Start (nil: keep the engine's shuffle)
+	Ante     int64      `json:"ante"`
+	Dealer   int64      `json:"dealerBlind"`
+	SB       int64      `json:"sb"`
+	BB       int64      `json:"bb"`
+	Limit    string     `json:"limit"`
+	HoleN    int        `json:"holeN"`
+	ReqHole  int        `json:"reqHole"`
+	Ranking  string     `json:"ranking"`  // "standard" | "short"
+	DeckKind string     `json:"deckKind"` // "std" | "short" | "none"
+	Bank     []int64    `json:"bank"`
+	Pos      [][]string `json:"pos"`
+	Deck     []string   `json:"deck"`              // deck forced right after Start (nil: keep the engine's shuffle)
+	BurnOpt  int        `json:"burnOpt,omitempty"` // options.BurnCount = 1 + BurnOpt (the engine burns one card per street whatever it says)
 }
 
 type HOp struct {
@@ -76,6 +77,7 @@ func (c *HCfg) options() *pf.GameOptions {
 	o.Limit = c.Limit
 	o.HoleCardsCount = c.HoleN
 	o.RequiredHoleCardsCount = c.ReqHole
+	o.BurnCount = 1 + c.BurnOpt
 	if c.Ranking == "short" {
 		o.CombinationPowers = combination.CombinationPowerShortDeck
 	}
@@ -364,6 +366,9 @@ func genCfg(r *rand.Rand, bbOnly bool) HCfg {
 			}
 		}
 	} // else: keep the engine's own shuffle
+	if r.Intn(5) == 0 {
+		c.BurnOpt = []int{-1, 1}[r.Intn(2)] // hand-written options: burn count 0 or 2
+	}
 	return c
 }
 
